@@ -68,7 +68,7 @@ func (r *Result) sample(v any) {
 	}
 }
 
-const maxFailuresKept = 50
+const maxFailuresKept = 2000
 
 func (r *Result) fail(key, what string, witness, detail any) {
 	for _, f := range r.Failures {
